@@ -210,13 +210,25 @@ func (v *Verifier) lookupContract(fn *ssa.Function) *Contract {
 			}
 		}
 	}
-	if c == nil && fn.Pkg != nil && fn.Signature.Recv() == nil && !strings.HasPrefix(fn.Pkg.Pkg.Path(), "github.com/consensys/gnark-crypto") {
+	xpkg := fn.Pkg
+	if xpkg == nil && fn.Origin() != nil {
+		xpkg = fn.Origin().Pkg // an instance of a generic function
+	}
+	if c == nil && xpkg != nil && fn.Signature.Recv() == nil && !strings.HasPrefix(xpkg.Pkg.Path(), "github.com/consensys/gnark-crypto") {
 		// a function of another module (standard library): an assumed contract stated as "func <pkg name>.<Func>"
 		// in one of the loaded contract files
-		suffix := "." + fn.Pkg.Pkg.Name() + "." + fn.Name()
+		base := fn.Name()
+		if i := strings.Index(base, "["); i > 0 {
+			base = base[:i] // an instance of a generic function: the contract is stated for the generic function
+		}
+		suffix := "." + xpkg.Pkg.Name() + "." + base
 		var keys []string
 		for k, cand := range v.contracts {
-			if strings.HasSuffix(k, suffix) && cand.Assumed != "" {
+			kk := k
+			if i := strings.Index(kk, "@"); i >= 0 {
+				kk = kk[:i] // contract keys carry their layer
+			}
+			if strings.HasSuffix(kk, suffix) && cand.Assumed != "" {
 				keys = append(keys, k)
 			}
 		}
